@@ -11,24 +11,27 @@ MP == INSTANCE SubsProps
 
 MInit ==
   /\ DInit
-  /\ mon = [m21 |-> MP!M21Init, m22 |-> MP!M22Init, m26 |-> MP!M26Init, m27 |-> MP!M27Init, m40 |-> MP!M40Init]
-  /\ viol = [c21 |-> {}, c22 |-> {}, c26 |-> {}, c27 |-> {}, c40 |-> {}]
+  /\ mon = [m21 |-> MP!M21Init, m22 |-> MP!M22Init, m24 |-> MP!M24Init, m26 |-> MP!M26Init, m27 |-> MP!M27Init, m40 |-> MP!M40Init]
+  /\ viol = [c21 |-> {}, c22 |-> {}, c24 |-> {}, c26 |-> {}, c27 |-> {}, c40 |-> {}]
 
 MNext ==
   /\ DNext
   /\ LET e == evt' @@ [site |-> "model"]
          r21 == MP!Mon21Step(mon.m21, e)
          r22 == MP!Mon22Step(mon.m22, e)
+         r24 == MP!Mon24Step(mon.m24, e)
          r26 == MP!Mon26Step(mon.m26, e)
          r27 == MP!Mon27Step(mon.m27, e)
          r40 == MP!Mon40Step(mon.m40, e)
      IN /\ mon' = [m21 |-> IF "C21" \in Mons THEN r21.g ELSE mon.m21,
                     m22 |-> IF "C22" \in Mons THEN r22.g ELSE mon.m22,
+                    m24 |-> IF "C24" \in Mons THEN r24.g ELSE mon.m24,
                     m26 |-> IF "C26" \in Mons THEN r26.g ELSE mon.m26,
                     m27 |-> IF "C27" \in Mons THEN r27.g ELSE mon.m27,
                     m40 |-> IF "C40" \in Mons THEN r40.g ELSE mon.m40]
         /\ viol' = [c21 |-> IF "C21" \in Mons THEN r21.viol ELSE {},
                      c22 |-> IF "C22" \in Mons THEN r22.viol ELSE {},
+                     c24 |-> IF "C24" \in Mons THEN r24.viol ELSE {},
                      c26 |-> IF "C26" \in Mons THEN r26.viol ELSE {},
                      c27 |-> IF "C27" \in Mons THEN r27.viol ELSE {},
                      c40 |-> IF "C40" \in Mons THEN r40.viol ELSE {}]
@@ -37,6 +40,7 @@ MSpec == MInit /\ [][MNext]_<<vars, dvars, mon, viol>>
 
 C21 == viol.c21 = {}
 C22 == viol.c22 = {}
+C24 == viol.c24 = {}
 C26 == viol.c26 = {}
 C27 == viol.c27 = {}
 C40 == viol.c40 = {}
